@@ -144,3 +144,60 @@ pub fn bootstrap(w: &mut World, admin: &Pubkey, roles: &[&str], grants: &[(&str,
     }
     store
 }
+
+// ---- fabrication through the real state-level methods (no instruction, hence independent of the
+// ---- instructions' access checks): used by drivers whose subject IS those access checks (C19)
+
+/// Apply `f` to the `Store` zero-copy struct inside the account bytes and write it back.
+pub fn with_store_mut<R>(w: &mut World, store: &Pubkey, f: impl FnOnce(&mut gmsol_store::states::Store) -> R) -> R {
+    let mut acc = w.account(store).cloned().expect("store account");
+    let n = std::mem::size_of::<gmsol_store::states::Store>();
+    let mut s: gmsol_store::states::Store = bytemuck::pod_read_unaligned(&acc.data[8..8 + n]);
+    let r = f(&mut s);
+    acc.data[8..8 + n].copy_from_slice(bytemuck::bytes_of(&s));
+    w.set_account(*store, acc);
+    r
+}
+
+/// `Store::enable_role` directly on the account bytes.
+pub fn fab_enable_role(w: &mut World, store: &Pubkey, role: &str) -> bool {
+    with_store_mut(w, store, |s| s.enable_role(role).is_ok())
+}
+/// `Store::grant` directly on the account bytes.
+pub fn fab_grant_role(w: &mut World, store: &Pubkey, user: &Pubkey, role: &str) -> bool {
+    with_store_mut(w, store, |s| s.grant(user, role).is_ok())
+}
+/// `Store::revoke` directly on the account bytes.
+pub fn fab_revoke_role(w: &mut World, store: &Pubkey, user: &Pubkey, role: &str) -> bool {
+    with_store_mut(w, store, |s| s.revoke(user, role).is_ok())
+}
+
+/// Like `bootstrap`, but the role table is written with the real `Store` methods instead of the
+/// `enable_role` / `grant_role` instructions; if `initialize` itself is rejected the store account is
+/// fabricated with the real `Store::init`. Returns (store, whether `initialize` succeeded).
+pub fn bootstrap_fab(w: &mut World, admin: &Pubkey, roles: &[&str], grants: &[(&str, Pubkey)]) -> (Pubkey, bool) {
+    use anchor_lang::Discriminator;
+    w.airdrop(admin, 1_000_000_000_000);
+    let (store, r) = init_store(w, admin);
+    if !r.ok {
+        let n = std::mem::size_of::<gmsol_store::states::Store>();
+        let bump = Pubkey::find_program_address(
+            &[<gmsol_store::states::Store as gmsol_store::states::Seed>::SEED, &gmsol_utils::to_seed("")],
+            &gmsol_store::ID,
+        )
+        .1;
+        let mut s: gmsol_store::states::Store = bytemuck::Zeroable::zeroed();
+        s.init(*admin, "", bump, *admin, *admin).expect("Store::init");
+        let mut data = gmsol_store::states::Store::DISCRIMINATOR.to_vec();
+        data.extend_from_slice(bytemuck::bytes_of(&s));
+        assert_eq!(data.len(), 8 + n);
+        w.set_account(store, super::Account { owner: gmsol_store::ID, lamports: 1_000_000_000, data, executable: false });
+    }
+    for role in roles {
+        assert!(fab_enable_role(w, &store, role), "Store::enable_role {role}");
+    }
+    for (role, member) in grants {
+        assert!(fab_grant_role(w, &store, member, role), "Store::grant {role}");
+    }
+    (store, r.ok)
+}
